@@ -97,17 +97,35 @@ Eval vm_compute in (length cases, length (filter (fun c => negb (ok c)) cases)).
     from configs import cfg
     methods = ["BIZONEDRECTANGLE", "NEARSQUARE", "ROWWISE"] if quick else ["BIZONEDRECTANGLE", "NEARSQUARE", "ROWWISE", "RECTANGLE", "BIRECTANGLE", "BIRECTANGLECONSTRAINED"]
     flows = {"BIZONEDRECTANGLE": 3.0, "NEARSQUARE": 3.5, "ROWWISE": 4.0, "RECTANGLE": 3.0, "BIRECTANGLE": 2.5, "BIRECTANGLECONSTRAINED": 3.0}
-    for er in e2e_runs([cfg(m, months=12, flow=("SYSTEM", flows[m])) for m in methods]):
+    dcfgs = [cfg(m, months=12, flow=("SYSTEM", flows[m])) for m in methods]
+    # parallel double U-tubes (the summary reports the flow per borehole, not per tube)
+    dcfgs.append(cfg("RECTANGLE", "DOUBLEUTUBEPARALLEL", months=12, flow=("BOREHOLE", 0.45)))
+    dcfgs.append(cfg("NEARSQUARE", "DOUBLEUTUBEPARALLEL", months=12, flow=("SYSTEM", 3.2)))
+    # set_design called a second time with the other flow specification and nothing else re-set
+    rd = cfg("RECTANGLE", months=12, flow=("SYSTEM", 3.0))
+    rd["_design_first_set_with"] = {"flow_type": "BOREHOLE", "flow_rate": 0.5}
+    rd2 = cfg("NEARSQUARE", months=12, flow=("BOREHOLE", 0.4))
+    rd2["_design_first_set_with"] = {"flow_type": "SYSTEM", "flow_rate": 3.5}
+    dcfgs += [rd, rd2]
+    for er in e2e_runs(dcfgs):
         if not er.get("ok"):
             chk.broken.append({"name": "end-to-end run failed", "detail": json.dumps({k: er.get(k) for k in ("exc", "msg")})})
             continue
         chk.cov["evaluations"] += 1
         nontrivial += 1
         v = er["cfg"]["design"]["flow_rate"]
-        want = v / er["nbh"] * er["fluid_rho"] / 1000.0
+        want = (v / er["nbh"] if er["cfg"]["design"]["flow_type"] == "SYSTEM" else v) * er["fluid_rho"] / 1000.0
+        # the value the written summary reports
+        try:
+            with open(os.path.join(er["outdir"], "SimulationSummary.json")) as fh:
+                rep = json.load(fh)["ghe_system"]["fluid_mass_flow_rate_per_borehole"]["value"]
+            if abs(rep - want) > 1e-9 * want:
+                chk.violation("flow-design", er["cfg"], {"summary_reports_kg_per_s": rep, "boreholes": er["nbh"]}, f"SimulationSummary.json: mass flow per borehole = {want}")
+        except (OSError, KeyError, TypeError) as ex_:
+            chk.notes.append({"summary_not_read": str(ex_)})
         if abs(er["m_flow_borehole"] - want) > 1e-9 * want:
             chk.violation("flow-design", er["cfg"], {"boreholes": er["nbh"], "m_flow_borehole": er["m_flow_borehole"]},
-                          f"system flow {v} L/s over {er['nbh']} boreholes: mass flow per borehole = V x rho / 1000 / N = {want}")
+                          f"{er['cfg']['design']['flow_type']} flow {v} L/s, {er['nbh']} boreholes: mass flow per borehole = {want}")
     chk.cov["distinct_nontrivial"] = nontrivial
     chk.cov["rule"] = ("retrieve_flow of both search classes on 1..400 boreholes (48 sizes in quick) x both flow types x fluids; paired real GHE simulations (borehole v vs system N v) over pipe types and fluids; whole designs through the manager with a system flow for each design method; "
                        "non-trivial = one flow split or one simulated pair")
